@@ -259,47 +259,57 @@ func c03r3(c *an.Ctx) {
 	a := A(c)
 	wf := a.obj("drpcwire", "(*Writer).WriteFrame")
 	fl := a.obj("drpcwire", "(*Writer).Flush")
-	rw := c.Fn("drpcstream", "(*Stream).rawWriteLocked")
-	// typestate: which signals have been tested (false) since the last WriteFrame
-	flow := &an.Flow{Fn: rw, Inline: an.InlineSamePackage(rw), Init: []string{""},
-		Step: func(st string, in ssa.Instruction) []string {
-			if ci, ok := in.(ssa.CallInstruction); ok && an.IsCallTo(ci.Common(), wf) {
-				return []string{""}
-			}
-			return nil
-		},
-		Branch: func(st string, br *ssa.If, idx int) (string, bool) {
-			cond, neg := an.StripNot(br.Cond)
-			call, ok := cond.(*ssa.Call)
-			if !ok || !an.IsCallTo(call.Common(), sa.sigIsSet) {
-				return st, true
-			}
-			isFalse := (idx == 1) != neg
-			if !isFalse {
-				return st, true
-			}
-			switch recvField(call.Common()) {
-			case sa.send.Origin():
-				return addTag(st, "send"), true
-			case sa.term.Origin():
-				return addTag(st, "term"), true
-			}
-			return st, true
-		},
-	}
-	res := flow.Run()
 	n := 0
-	for _, cs := range an.CallsTo(rw, false, wf) {
-		n++
-		ok := true
-		for _, st := range res.Before(cs.Instr) {
-			if !(hasTag(st, "send") && hasTag(st, "term")) {
-				ok = false
+	for _, rw := range frameLoopFns(c) {
+		// typestate: which signals have been tested (false) since the last WriteFrame (or since the function was entered)
+		flow := &an.Flow{Fn: rw, Inline: an.InlineSamePackage(rw), Init: []string{""},
+			Step: func(st string, in ssa.Instruction) []string {
+				if ci, ok := in.(ssa.CallInstruction); ok && an.IsCallTo(ci.Common(), wf) {
+					return []string{""}
+				}
+				return nil
+			},
+			Branch: func(st string, br *ssa.If, idx int) (string, bool) {
+				cond, neg := an.StripNot(br.Cond)
+				call, ok := cond.(*ssa.Call)
+				if !ok || !an.IsCallTo(call.Common(), sa.sigIsSet) {
+					return st, true
+				}
+				isFalse := (idx == 1) != neg
+				if !isFalse {
+					return st, true
+				}
+				switch recvField(call.Common()) {
+				case sa.send.Origin():
+					return addTag(st, "send"), true
+				case sa.term.Origin():
+					return addTag(st, "term"), true
+				}
+				return st, true
+			},
+		}
+		res := flow.Run()
+		inLoop := map[*ssa.BasicBlock]bool{}
+		for _, l := range an.Loops(rw) {
+			for b := range l.Blocks {
+				inLoop[b] = true
 			}
 		}
-		c.Check(ok, "(*Stream).rawWriteLocked | send and term re-tested before each WriteFrame", c.At(cs.Instr), "", "a frame can be written after the stream's send side closed or the stream terminated (tests missing on some path; states: "+fmt.Sprint(res.Before(cs.Instr))+")")
+		for _, cs := range an.CallsTo(rw, false, wf) {
+			if !inLoop[cs.Instr.Block()] {
+				continue // single-frame emissions are C03.R2's
+			}
+			n++
+			ok := true
+			for _, st := range res.Before(cs.Instr) {
+				if !(hasTag(st, "send") && hasTag(st, "term")) {
+					ok = false
+				}
+			}
+			c.Check(ok, "frame loop | send and term re-tested before each WriteFrame", c.At(cs.Instr), "", "a frame can be written after the stream's send side closed or the stream terminated (tests missing on some path; states: "+fmt.Sprint(res.Before(cs.Instr))+")")
+		}
 	}
-	c.Floor("WriteFrame in rawWriteLocked", 1, n)
+	c.Floor("WriteFrame calls in the frame loop", 1, n)
 	// the returns under a set signal hand back that signal's error
 	rf := c.Fn("drpcstream", "(*Stream).rawFlushLocked")
 	n = 0
